@@ -80,6 +80,9 @@ def _eval(ps, n):
         return AVal("call", node=s)
     if s.k == "BinaryOperator" and s.get("op") in ("==", "!=", "<", ">", "<=", ">="):
         l, r = _eval(ps, s.child(0)), _eval(ps, s.child(1))
+        if (l.kind == "call" and r.kind == "const") or (r.kind == "call" and l.kind == "const"):
+            # `flag = (f(x) != OK)`: the flag stands for this comparison; deciding the flag decides the comparison
+            return AVal("cmpcall", node=s)
         if l.kind == "const" and r.kind == "const" and l.v is not None and r.v is not None:
             return AVal("const", int({"==": l.v == r.v, "!=": l.v != r.v, "<": l.v < r.v, ">": l.v > r.v,
                                       "<=": l.v <= r.v, ">=": l.v >= r.v}[s["op"]]))
@@ -247,6 +250,11 @@ def _branch(ps, cond, pol):
                     ps.facts.append((v.node, apol))
                     ps.events.append(("branch", v.node, apol))
                     _expand_helper(ps, v.node, apol)
+                    continue
+                if v.kind == "cmpcall":
+                    ps.env[a["decl"]["name"]] = AVal("const", 1 if apol else 0)
+                    ps.facts.append((v.node, apol))
+                    ps.events.append(("branch", v.node, apol))
                     continue
                 if v.kind == "notcall":
                     ps.env[a["decl"]["name"]] = AVal("const", 1 if apol else 0)
